@@ -110,7 +110,7 @@ fn gen_case(rng: &mut Rng) -> Case {
         ctor_headers,
         adds,
         with_data,
-        status: if rng.chance(1, 3) { Some(*rng.pick(&[200u16, 201, 404, 500, 301])) } else { None },
+        status: if rng.chance(1, 3) { Some(*rng.pick(&[200u16, 201, 404, 500, 301, 100, 101, 103, 199, 204, 304, 599])) } else { None },
         boxed: rng.chance(1, 3),
         version: *rng.pick(&[(1u8, 1u8), (1, 1), (1, 0)]),
     }
